@@ -165,8 +165,8 @@ func NewSim(c *kit.Check, r *kit.Rng, o SimOpts) *Sim {
 		ch.OnTx = func(o *kit.Outcome) { s.observe(ch.Idx, o) }
 		// the two mock v2 applications answer with different, sequence-dependent acknowledgements, so that the
 		// order and identity of app acknowledgements in a multi-payload packet is observable
-		ch.Sim.MockModuleV2A.IBCApp.OnRecvPacket = distinctAckApp("zz-app-A")
-		ch.Sim.MockModuleV2B.IBCApp.OnRecvPacket = distinctAckApp("aa-app-B")
+		ch.Sim.MockModuleV2A.IBCApp.OnRecvPacket = distinctAckApp("aa-app-A")
+		ch.Sim.MockModuleV2B.IBCApp.OnRecvPacket = distinctAckApp("zz-app-B")
 	}
 	return s
 }
@@ -240,7 +240,7 @@ func (s *Sim) chooseTimeout(l *Lane, src int, soon bool) (clienttypes.Height, ui
 	if l.V2 {
 		secs := uint64(now.Unix())
 		if soon {
-			return clienttypes.ZeroHeight(), secs + uint64(20+s.R.Intn(40))
+			return clienttypes.ZeroHeight(), secs + 5*uint64(4+s.R.Intn(8)) // on the 5 s block-time grid, so that equality with a block time is reachable
 		}
 		return clienttypes.ZeroHeight(), secs + 3600*uint64(1+s.R.Intn(20))
 	}
@@ -252,7 +252,7 @@ func (s *Sim) chooseTimeout(l *Lane, src int, soon bool) (clienttypes.Height, ui
 		return clienttypes.NewHeight(rev, dh+100000), 0
 	case 1: // time only
 		if soon {
-			return clienttypes.ZeroHeight(), uint64(now.Add(time.Duration(20+s.R.Intn(40)) * time.Second).UnixNano())
+			return clienttypes.ZeroHeight(), uint64(now.Add(time.Duration(5*(4+s.R.Intn(8))) * time.Second).UnixNano())
 		}
 		return clienttypes.ZeroHeight(), uint64(now.Add(1000 * time.Hour).UnixNano())
 	default: // both
